@@ -204,7 +204,7 @@ func init() {
 								continue
 							}
 							ast.Inspect(g.Expr, func(nd ast.Node) bool {
-								if c2, isC := nd.(*ast.CallExpr); isC && fi.calleeName(c2) == pathW+".ProvidedType."+is && fi.sameExpr(recvOf(c2), recvOf(cl)) {
+								if c2, isC := nd.(*ast.CallExpr); isC && fi.calleeName(c2) == pathW+".ProvidedType."+is && (fi.sameExpr(recvOf(c2), recvOf(cl)) || fi.sameExpr(fi.deref(recvOf(c2)), fi.deref(recvOf(cl)))) {
 									// IsX() appearing positively; for `A() || B()` conditions the accessor must be re-tested, which callers do
 									ok = true
 								}
